@@ -193,14 +193,15 @@ FLOORS = {
                               "empty_scope:top": 2400, "empty_scope:if": 800,
                               "empty_scope:loop": 800, "empty_scope:if-in-loop": 800,
                               "empty_scope:with": 800, "empty_scope:block": 800,
-                              # warning texts: 4000 cases per shard, time-boxed to 7% of the budget
-                              "warn_text_cases": 15000, "warn_text_with_backslash": 12000,
-                              "warn_text_python_warns_while_parsing": 5000,
-                              "warn_text_python_warns_and_text_is_a_literal": 3500,
-                              "warn_text_route:cut": 3000, "warn_text_route:loop-join": 1500,
-                              "warn_text_route:quoted-variable": 2500,
-                              "warn_text_route:string-node": 2000,
-                              **{"warn_text:" + c: 1000 for c in WARN_CLASSES}}},
+                              # warning texts: 4000 cases per shard, time-boxed to 4% of the budget
+                              # (37k cases in 7% of the budget at load average > 60 on 16 cores)
+                              "warn_text_cases": 7000, "warn_text_with_backslash": 6000,
+                              "warn_text_python_warns_while_parsing": 2800,
+                              "warn_text_python_warns_and_text_is_a_literal": 2000,
+                              "warn_text_route:cut": 2400, "warn_text_route:loop-join": 1000,
+                              "warn_text_route:quoted-variable": 2000,
+                              "warn_text_route:string-node": 1300,
+                              **{"warn_text:" + c: 700 for c in WARN_CLASSES}}},
 }
 
 MODES = ["sync.render", "async.render_async", "async.render", "sandbox.render"]
@@ -1918,7 +1919,7 @@ def run(ctx):
             ctx.sample({"src": realize(case["segs"], {k: make_value(v) for k, v in
                                                       case["data"].items()})[0],
                         "data": case["data"], "class": case["cls"]})
-        if not quick and ctx.elapsed() > ctx.budget_s * 0.57:
+        if not quick and ctx.elapsed() > ctx.budget_s * 0.54:
             ctx.count("warning_texts_timeboxed")
             break
     rng = ctx.rng("cases")
